@@ -96,10 +96,12 @@ func checkC08(c *Ctx, r *Report) {
 	r.rule("C08.R7", "quota, price, units and tariff mean on the wire what the server computes with: member types match the dictionary's AVP types exactly (an integer AVP declared as a float type loses large values), tags and constants agree with the dictionary (shared with C17.R1/R2/R8/R9)", 100)
 	r.rule("C08.R3", "server and CHF compute the same unit cost polynomial from the tariff sent in the answer", 2)
 	r.rule("C08.R4", "every path for a found account answers", 1)
+	r.rule("C08.R8", "the tariff look-up key \"imsi-\"+data is built only for Subscription-Id-Type END_USER_IMSI", 1)
 	r.rule("C08.R5", "the handler keeps no state between requests (no captured or package-level variable written)", 1)
 
 	rfRules(c, r, "C08.R1", "C08.R2", "C08.R3", "C08.R4", "C08.R5")
 	rfWidthRules(c, r, "C08.R6")
+	subscriberKeyBehindTypeTest(c, r, "C08.R8", c.fn("pkg/rf", "handleSUR"))
 	r.shareFrom(c, checkC17, map[string]string{"C17.R1": "C08.R7", "C17.R2": "C08.R7", "C17.R8": "C08.R7", "C17.R9": "C08.R7"})
 }
 
